@@ -107,6 +107,8 @@ class Extractor:
         self.probe3 = None       # optional f(it, S, tokens so far) -> hashable (same, but may look at the path's tokens)
         self.stop_at = None      # optional f(frame, call terminator) -> bool: end the path before this call ("end", "cut")
         self.raw_args = False    # call tokens of local callees carry the argument values as a 4th element
+        self.raw_decisions = False   # decision tokens carry the value decided on as a 4th element
+        self.call_probe = None   # optional f(extractor, interp, state before the call, terminator, argument values) -> payload of a ("cprobe", payload) token
         self.entered = set()     # keys of the callees whose bodies were followed in place
         self.order = []          # read call result SVs in path order (DFS stack discipline)
         self.read_sites = [(self.body.key, bi) for bi, t in self.body.calls() if callee_name(t) in READ_CALLS or callee_name(t) == "std::io::Read::read"]
@@ -474,15 +476,16 @@ class Extractor:
         is_other = (t["otherwise"] == succ) and not vals
         desc = stable(dv)
         if self.interesting(dv):
+            raw = (dv,) if self.raw_decisions else ()
             if is_other:
-                return [("when", desc, "other:" + ",".join(str(v) for v, _ in t["targets"]))]
-            return [("when", desc, ",".join(str(v) for v in vals))]
+                return [("when", desc, "other:" + ",".join(str(v) for v, _ in t["targets"])) + raw]
+            return [("when", desc, ",".join(str(v) for v in vals)) + raw]
         return []
 
     def interesting(self, sv):
         """discriminants of parameters, values read from the source, comparisons of such values with constants"""
         def leaf(x):
-            if x[0] == "discr" or x[0] == "streq":
+            if x[0] == "discr" or x[0] == "streq" or x[0] == "seqeq":
                 return True
             if x[0] == "elem":
                 return True
@@ -501,6 +504,12 @@ class Extractor:
         name = callee_name(t)
         args = [it.eval_op(S, a) for a in t["args"]]
         toks = []
+        if self.call_probe is not None:
+            it.cur = (bi, len(body.blocks[bi]["stmts"]))
+            it.counter = 0
+            r_ = self.call_probe(self, it, S, t, args)
+            if r_ is not None:
+                toks.append(("cprobe", r_))
         if self.track_ext and args and callee_path(t) not in self.prog.bodies:
             ty0 = it.op_type(t["args"][0])
             a0 = args[0]
